@@ -149,6 +149,15 @@ theorem mkRows_wf (ncf nsf : Nat) (feats : List (List Level × List Level))
   have : p ∈ feats := by rw [hm.2.2]; exact List.getElem_mem _
   exact h p this
 
+theorem mkRows_noMissing (feats : List (List Level × List Level))
+    (h : ∀ p ∈ feats, FramePrims.naLevel ∉ p.1 ∧ FramePrims.naLevel ∉ p.2) : FramePrims.NoMissing (mkRows feats) := by
+  intro r hr
+  rw [mkRows_eq_zipIdx, List.mem_map] at hr
+  obtain ⟨⟨p, j⟩, hp, rfl⟩ := hr
+  have hm := List.mem_zipIdx hp
+  have : p ∈ feats := by rw [hm.2.2]; exact List.getElem_mem _
+  exact h p this
+
 /-- the row numbers (in the original order) of the feature rows equal to the index tuple `k` -/
 def rowIdx (feats : List (List Level × List Level)) (k : Key) : List Nat :=
   (feats.zipIdx.filter (fun pj => pj.1.1 ++ pj.1.2 == k)).map (·.2)
